@@ -45,14 +45,6 @@ inductive Cat where
   | frame | growth | rq | other
   deriving DecidableEq, Repr, Inhabited
 
-/-- one token of the output; `out` keeps them newest first -/
-inductive Tok where
-  | act (j : Nat) (text : String)            -- coroutine `j` executed an action of its script
-  | cb (i : Nat)                             -- the callback awaiter of future `i` fired
-  | alloc (c : Cat) (n : Nat) (held : Nat)   -- allocation; `held` (ghost) = handles held by the growing suspend point
-  | free (c : Cat) (n : Nat)                 -- release
-  deriving DecidableEq, Repr, Inhabited
-
 inductive Kind where
   | v | e | d
   deriving DecidableEq, Repr, Inhabited
@@ -70,20 +62,21 @@ inductive Act where
   | gstepAw (g : Nat)             -- `co_await G.next()`
   deriving DecidableEq, Repr, Inhabited
 
-def Kind.text : Kind → String
-  | .v => "v" | .e => "e" | .d => "d"
+/-- what a coroutine reports when it executes an action -/
+inductive Label where
+  | did (a : Act)
+  | stepped (a : Act) (r : Option Nat)   -- generator step: the value, or `none` = done
+  | nogen (a : Act)                      -- the generator does not exist
+  | fin                                  -- end of the script
+  deriving DecidableEq, Repr, Inhabited
 
-def Act.text : Act → String
-  | .await i => s!"a{i}"
-  | .res i k => s!"r{i}{k.text}"
-  | .resAw i k => s!"R{i}{k.text}"
-  | .lock m => s!"l{m}"
-  | .unlock m => s!"u{m}"
-  | .unlockAw m => s!"U{m}"
-  | .park => "p"
-  | .pause => "y"
-  | .gstep g => s!"g{g}"
-  | .gstepAw g => s!"G{g}"
+/-- one token of the output; `out` keeps them newest first -/
+inductive Tok where
+  | act (j : Nat) (l : Label)                -- coroutine `j` executed an action of its script
+  | cb (i : Nat)                             -- the callback awaiter of future `i` fired
+  | alloc (c : Cat) (n : Nat) (held : Nat)   -- allocation; `held` (ghost) = handles held by the growing suspend point
+  | free (c : Cat) (n : Nat)                 -- release
+  deriving DecidableEq, Repr, Inhabited
 
 inductive Waiter where
   | coro (j : Nat) | cb | sync
@@ -169,27 +162,34 @@ def init (fresh : Bool) : State := { fresh := fresh, rq := { built := !fresh } }
 
 def upd {α : Type} (f : Nat → α) (i : Nat) (v : α) : Nat → α := fun k => if k = i then v else f k
 
+/-! ### primitive state changes -/
+
 def emit (s : State) (t : Tok) : State := { s with out := t :: s.out }
-/-- emit a list of tokens given in order of occurrence -/
-def emits (s : State) (l : List Tok) : State := { s with out := l.reverse ++ s.out }
 
 def setFut (s : State) (i : Nat) (f : Fut) : State := { s with futs := upd s.futs i f }
 def setMx (s : State) (m : Nat) (x : Mx) : State := { s with mxs := upd s.mxs m x }
 def setGen (s : State) (g : Nat) (x : Gen) : State := { s with gens := upd s.gens g x }
+def setCo (s : State) (j : Nat) (c : Co) : State := { s with cos := upd s.cos j c }
 def setSt (s : State) (j : Nat) (st : CoSt) : State := { s with cos := upd s.cos j { s.cos j with st := st } }
 def setScript (s : State) (j : Nat) (sc : List Act) : State := { s with cos := upd s.cos j { s.cos j with script := sc } }
 def setOwns (s : State) (j m : Nat) (b : Bool) : State :=
   { s with cos := upd s.cos j { s.cos j with owns := upd (s.cos j).owns m b } }
+def setMoved (s : State) (b : Bool) : State := { s with moved := b }
+def clearTmp (s : State) : State := { s with tmp := {} }
+
+/-- a coroutine frame is allocated / released through global `operator new` / `delete` (heap storage policy only) -/
+def allocFrame (s : State) (heap : Bool) : State := if heap then emit s (Tok.alloc .frame 1 0) else s
+def freeFrame (s : State) (heap : Bool) : State := if heap then emit s (Tok.free .frame 1) else s
 
 /-! ### suspend point -/
 
 def Sp.count (sp : Sp) : Nat := sp.handles.length
 
-/-- allocation events of `suspend_point::add` on `sp`, in order -/
+/-- allocation events of `suspend_point::add` on `sp`, newest first -/
 def Sp.addToks (sp : Sp) : List Tok :=
   match sp.ext with
   | some cap =>
-      if sp.count = cap then [Tok.alloc .growth (sp.count * growthFactor) sp.count, Tok.free .growth cap] else []
+      if sp.count = cap then [Tok.free .growth cap, Tok.alloc .growth (sp.count * growthFactor) sp.count] else []
   | none =>
       if sp.count < inlineCount then [] else [Tok.alloc .growth (sp.count * growthFactor) sp.count]
 
@@ -202,11 +202,11 @@ def Sp.add (sp : Sp) (h : Nat) : Sp := { handles := sp.handles ++ [h], ext := sp
 
 /-- `tmp << h` -/
 def addTmp (s : State) (h : Nat) : State :=
-  { s with tmp := s.tmp.add h, out := s.tmp.addToks.reverse ++ s.out, peak := max s.peak (s.tmp.count + 1) }
+  { s with tmp := s.tmp.add h, out := s.tmp.addToks ++ s.out, peak := max s.peak (s.tmp.count + 1) }
 
 /-- `S_k << h` -/
 def addSp (s : State) (k h : Nat) : State :=
-  { s with sps := upd s.sps k ((s.sps k).add h), out := (s.sps k).addToks.reverse ++ s.out,
+  { s with sps := upd s.sps k ((s.sps k).add h), out := (s.sps k).addToks ++ s.out,
            peak := max s.peak ((s.sps k).count + 1) }
 
 def freeExt (s : State) : Option Nat → State
@@ -214,9 +214,22 @@ def freeExt (s : State) : Option Nat → State
   | none => s
 
 /-- `clear_internal()` of the suspend point in `tmp` -/
-def freeTmp (s : State) : State := { freeExt s s.tmp.ext with tmp := {} }
+def freeTmp (s : State) : State := clearTmp (freeExt s s.tmp.ext)
+
+/-- ordinary code starts flushing the suspend point in `tmp`: its handles are taken, its heap array stays until the end -/
+def stashTmp (s : State) : State := { s with pend := s.tmp.ext, tmp := {} }
 
 def freePend (s : State) : State := { freeExt s s.pend with pend := none }
+
+/-- the suspend point object `S_k` is moved into `tmp` -/
+def loadSp (s : State) (k : Nat) : State := { s with tmp := s.sps k, sps := upd s.sps k {} }
+
+/-- `S_k.pop()` -/
+def popSp (s : State) (k : Nat) : State :=
+  { s with sps := upd s.sps k { s.sps k with handles := (s.sps k).handles.dropLast } }
+
+/-- destructor of the suspend point object `S_k` (empty by now, but its heap array may still be there) -/
+def killSp (s : State) (k : Nat) : State := { freeExt s (s.sps k).ext with sps := upd s.sps k {} }
 
 /-! ### the thread's ready queue (`coro_queue::queue_impl::_queue`) -/
 
@@ -236,17 +249,19 @@ def Rq.reserve (q : Rq) : Rq :=
                fN := (q.newMapSize - (q.oldNum + 1)) / 2 + q.oldNum - 1 }
   else q
 
+/-- newest first -/
 def Rq.reserveToks (q : Rq) : List Tok :=
   if q.needMap && !q.recenter then
-    [Tok.alloc .rq (q.newMapSize * ptrBytes) 0, Tok.free .rq (q.mapSize * ptrBytes)]
+    [Tok.free .rq (q.mapSize * ptrBytes), Tok.alloc .rq (q.newMapSize * ptrBytes) 0]
   else []
 
 def Rq.push (q : Rq) (h : Nat) : Rq :=
   if q.needNode then { q.reserve with fN := q.reserve.fN + 1, fO := 0, items := q.items ++ [h] }
   else { q with fO := q.fO + 1, items := q.items ++ [h] }
 
+/-- newest first -/
 def Rq.pushToks (q : Rq) : List Tok :=
-  if q.needNode then q.reserveToks ++ [Tok.alloc .rq nodeBytes 0] else []
+  if q.needNode then Tok.alloc .rq nodeBytes 0 :: q.reserveToks else []
 
 def Rq.pop (q : Rq) : Rq :=
   if q.sO + 1 = slots then { q with sN := q.sN + 1, sO := 0, items := q.items.tail }
@@ -257,11 +272,11 @@ def Rq.popToks (q : Rq) : List Tok :=
 
 /-- `_queue.push_back(h)` -/
 def rqPush (s : State) (h : Nat) : State :=
-  { s with rq := s.rq.push h, out := s.rq.pushToks.reverse ++ s.out, pushes := s.pushes + 1 }
+  { s with rq := s.rq.push h, out := s.rq.pushToks ++ s.out, pushes := s.pushes + 1 }
 
 /-- `_queue.pop_front()` -/
 def rqPop (s : State) : State :=
-  { s with rq := s.rq.pop, out := s.rq.popToks.reverse ++ s.out, pops := s.pops + 1 }
+  { s with rq := s.rq.pop, out := s.rq.popToks ++ s.out, pops := s.pops + 1 }
 
 /-- first use of `queue_impl::instance` on the thread: the deque is constructed (map + one node) -/
 def rqTouch (s : State) : State :=
@@ -276,6 +291,8 @@ def rqDestroy (s : State) : State :=
              out := Tok.free .rq (s.rq.mapSize * ptrBytes) ::
                     (List.replicate (s.rq.fN - s.rq.sN + 1) (Tok.free .rq nodeBytes) ++ s.out) }
   else s
+
+def rqExit (s : State) : State := if s.fresh then rqDestroy s else s
 
 def pushAll (s : State) : List Nat → State
   | [] => s
@@ -300,26 +317,28 @@ def outcomeOf (i : Nat) : Kind → Outcome
 
 /-- set the result and resolve: `tmp` := the returned suspend point -/
 def settle (s : State) (i : Nat) (o : Outcome) : State :=
-  walk (setFut { s with tmp := {} } i { s.futs i with claimed := true, ready := true, outcome := o, chain := [] })
+  walk (setFut (clearTmp s) i { s.futs i with claimed := true, ready := true, outcome := o, chain := [] })
        i (s.futs i).chain
 
 /-- `promise::operator()`: nothing happens when the promise was already claimed -/
 def resolve (s : State) (i : Nat) (k : Kind) : State :=
-  if (s.futs i).claimed then { s with tmp := {} } else settle s i (outcomeOf i k)
+  if (s.futs i).claimed then clearTmp s else settle s i (outcomeOf i k)
+
+/-- `co_await F_i` did not find the result: subscribe -/
+def subscribe (s : State) (i : Nat) (w : Waiter) : State :=
+  setFut s i { s.futs i with chain := w :: (s.futs i).chain }
 
 /-! ### mutex -/
+
+def clearOwn (s : State) (m : Nat) : Option Nat → State
+  | some j => setOwns s j m false
+  | none => s
 
 /-- `unlock`: the releasing party gives the mutex to the first waiter; `tmp` := the returned suspend point -/
 def handOver (s : State) (m : Nat) (who : Option Nat) : State :=
   match (s.mxs m).waiters with
-  | [] =>
-      match who with
-      | some j => setOwns (setMx { s with tmp := {} } m { owner := .free, waiters := [] }) j m false
-      | none => setMx { s with tmp := {} } m { owner := .free, waiters := [] }
-  | w :: ws =>
-      match who with
-      | some j => addTmp (setOwns (setOwns (setMx { s with tmp := {} } m { owner := .coro w, waiters := ws }) j m false) w m true) w
-      | none => addTmp (setOwns (setMx { s with tmp := {} } m { owner := .coro w, waiters := ws }) w m true) w
+  | [] => clearOwn (setMx (clearTmp s) m { owner := .free, waiters := [] }) m who
+  | w :: ws => addTmp (setOwns (clearOwn (setMx (clearTmp s) m { owner := .coro w, waiters := ws }) m who) w m true) w
 
 /-! ### generators -/
 
@@ -328,9 +347,10 @@ def genStep (g : Gen) : Gen × Option Nat :=
   else if g.next < g.n then ({ g with next := g.next + 1 }, some g.next)
   else ({ g with done := true }, none)
 
-def stepText : Option Nat → String
-  | some v => s!"{v}"
-  | none => "done"
+/-- a step of generator `g` made by coroutine `j` through action `a` -/
+def coGenStep (s : State) (j g : Nat) (a : Act) : State :=
+  if (s.gens g).exist then setGen (emit s (.act j (.stepped a (genStep (s.gens g)).2))) g (genStep (s.gens g)).1
+  else emit s (.act j (.nogen a))
 
 /-! ### one action of a running coroutine; result: the coroutine that runs next on this stack (`none` = return to the resumer) -/
 
@@ -342,41 +362,32 @@ def awaitTmp (s : State) (j : Nat) : State × Option Nat :=
 
 def actStep (s : State) (j : Nat) : Act → State × Option Nat
   | .await i =>
-      if (s.futs i).alive && !(s.futs i).ready then
-        (setFut (emit s (.act j (Act.await i).text)) i { s.futs i with chain := .coro j :: (s.futs i).chain }, none)
-      else (emit s (.act j (Act.await i).text), some j)
+      if (s.futs i).alive && !(s.futs i).ready then (subscribe (emit s (.act j (.did (.await i)))) i (.coro j), none)
+      else (emit s (.act j (.did (.await i))), some j)
   | .res i k =>
-      if (s.futs i).existed then (dropActive (resolve (emit s (.act j (Act.res i k).text)) i k), some j)
-      else (emit s (.act j (Act.res i k).text), some j)
+      if (s.futs i).existed then (dropActive (resolve (emit s (.act j (.did (.res i k)))) i k), some j)
+      else (emit s (.act j (.did (.res i k))), some j)
   | .resAw i k =>
-      if (s.futs i).existed then awaitTmp (resolve (emit s (.act j (Act.resAw i k).text)) i k) j
-      else (emit s (.act j (Act.resAw i k).text), some j)
+      if (s.futs i).existed then awaitTmp (resolve (emit s (.act j (.did (.resAw i k)))) i k) j
+      else (emit s (.act j (.did (.resAw i k))), some j)
   | .lock m =>
-      if (s.cos j).owns m then (emit s (.act j (Act.lock m).text), some j)
+      if (s.cos j).owns m then (emit s (.act j (.did (.lock m))), some j)
       else match (s.mxs m).owner with
-        | .free => (setOwns (setMx (emit s (.act j (Act.lock m).text)) m { s.mxs m with owner := .coro j }) j m true, some j)
-        | _ => (setMx (emit s (.act j (Act.lock m).text)) m { s.mxs m with waiters := (s.mxs m).waiters ++ [j] }, none)
+        | .free => (setOwns (setMx (emit s (.act j (.did (.lock m)))) m { s.mxs m with owner := .coro j }) j m true, some j)
+        | _ => (setMx (emit s (.act j (.did (.lock m)))) m { s.mxs m with waiters := (s.mxs m).waiters ++ [j] }, none)
   | .unlock m =>
-      if (s.cos j).owns m then (dropActive (handOver (emit s (.act j (Act.unlock m).text)) m (some j)), some j)
-      else (emit s (.act j (Act.unlock m).text), some j)
+      if (s.cos j).owns m then (dropActive (handOver (emit s (.act j (.did (.unlock m)))) m (some j)), some j)
+      else (emit s (.act j (.did (.unlock m))), some j)
   | .unlockAw m =>
-      if (s.cos j).owns m then awaitTmp (handOver (emit s (.act j (Act.unlockAw m).text)) m (some j)) j
-      else (emit s (.act j (Act.unlockAw m).text), some j)
-  | .park => (setSt (emit s (.act j Act.park.text)) j .parked, none)
+      if (s.cos j).owns m then awaitTmp (handOver (emit s (.act j (.did (.unlockAw m)))) m (some j)) j
+      else (emit s (.act j (.did (.unlockAw m))), some j)
+  | .park => (setSt (emit s (.act j (.did .park))) j .parked, none)
   | .pause =>
-      match (rqPush (emit s (.act j Act.pause.text)) j).rq.items with
-      | h :: _ => (rqPop (rqPush (emit s (.act j Act.pause.text)) j), some h)
-      | [] => (rqPush (emit s (.act j Act.pause.text)) j, some j)
-  | .gstep g =>
-      if (s.gens g).exist then
-        (setGen (emit s (.act j ((Act.gstep g).text ++ "=" ++ stepText (genStep (s.gens g)).2))) g (genStep (s.gens g)).1, some j)
-      else (emit s (.act j ((Act.gstep g).text ++ "=none")), some j)
-  | .gstepAw g =>
-      if (s.gens g).exist then
-        (setGen (emit s (.act j ((Act.gstepAw g).text ++ "=" ++ stepText (genStep (s.gens g)).2))) g (genStep (s.gens g)).1, some j)
-      else (emit s (.act j ((Act.gstepAw g).text ++ "=none")), some j)
-
-def freeFrame (s : State) (heap : Bool) : State := if heap then emit s (Tok.free .frame 1) else s
+      match (rqPush (emit s (.act j (.did .pause))) j).rq.items with
+      | h :: _ => (rqPop (rqPush (emit s (.act j (.did .pause))) j), some h)
+      | [] => (rqPush (emit s (.act j (.did .pause))) j, some j)
+  | .gstep g => (coGenStep s j g (.gstep g), some j)
+  | .gstepAw g => (coGenStep s j g (.gstepAw g), some j)
 
 /-- destructor of the `ownership` local `own[m]` at the end of the body -/
 def relOwned (s : State) (j m : Nat) : State :=
@@ -384,7 +395,7 @@ def relOwned (s : State) (j m : Nat) : State :=
 
 /-- end of the script: the `end` token, `co_return`, destruction of the locals `own[1]`, `own[0]` -/
 def finishPre (s : State) (j : Nat) : State :=
-  relOwned (relOwned (setSt (emit s (.act j "end")) j .done) j 1) j 0
+  relOwned (relOwned (setSt (emit s (.act j .fin)) j .done) j 1) j 0
 
 /-- `final_awaiter::await_suspend` after the frame is gone: `return sp.pop()`, the rest goes to the queue -/
 def transferTmp (s : State) : State × Option Nat :=
@@ -428,7 +439,7 @@ def resumeAll (fuel : Nat) (s : State) : List Nat → State
 def dropNormal (fuel : Nat) (s : State) : State :=
   match s.tmp.handles with
   | [] => freeTmp s
-  | h :: hs => freePend (flushQ fuel (resumeAll fuel (rqTouch { s with pend := s.tmp.ext, tmp := {} }) (h :: hs)))
+  | h :: hs => freePend (flushQ fuel (resumeAll fuel (rqTouch (stashTmp s)) (h :: hs)))
 
 /-- `coro_queue::resume(h)` from ordinary code -/
 def resumeNormal (fuel : Nat) (s : State) (h : Nat) : State := flushQ fuel (runCo fuel (rqTouch s) h)
@@ -462,37 +473,35 @@ def markActive (s : State) : List Nat → State
 def opCo (fuel : Nat) (s : State) (j : Nat) (heap : Bool) (bind : Option Nat) (script : List Act) : State :=
   match bind with
   | none =>
-      dropNormal fuel (addTmp { (if heap then emit s (Tok.alloc .frame 1 0) else s) with
-        cos := upd s.cos j { st := .active, heap := heap, bind := none, script := script }, tmp := {} } j)
+      dropNormal fuel (addTmp (clearTmp (setCo (allocFrame s heap) j
+        { st := .active, heap := heap, bind := none, script := script })) j)
   | some i =>
       if (s.futs i).claimed then
-        freeFrame { (if heap then emit s (Tok.alloc .frame 1 0) else s) with
-          cos := upd s.cos j { st := .done, heap := heap, bind := none, script := script } } heap
+        freeFrame (setCo (allocFrame s heap) j { st := .done, heap := heap, bind := none, script := script }) heap
       else
-        dropNormal fuel (addTmp (setFut { (if heap then emit s (Tok.alloc .frame 1 0) else s) with
-          cos := upd s.cos j { st := .active, heap := heap, bind := some i, script := script }, tmp := {} }
-          i { s.futs i with claimed := true }) j)
+        dropNormal fuel (addTmp (clearTmp (setFut (setCo (allocFrame s heap) j
+          { st := .active, heap := heap, bind := some i, script := script }) i { s.futs i with claimed := true })) j)
 
 def drainMx (fuel : Nat) (s : State) (m : Nat) : State :=
-  if (s.mxs m).owner = .main then dropNormal fuel (handOver { s with moved := true } m none) else s
+  if (s.mxs m).owner = .main then dropNormal fuel (handOver (setMoved s true) m none) else s
 
 def drainFut (fuel : Nat) (s : State) (i : Nat) : State :=
-  if (s.futs i).existed && !(s.futs i).claimed then dropNormal fuel (resolve { s with moved := true } i .d) else s
+  if (s.futs i).existed && !(s.futs i).claimed then dropNormal fuel (resolve (setMoved s true) i .d) else s
 
 def drainCo (fuel : Nat) (s : State) (j : Nat) : State :=
-  if (s.cos j).st = .parked then resumeNormal fuel (setSt { s with moved := true } j .active) j else s
+  if (s.cos j).st = .parked then resumeNormal fuel (setSt (setMoved s true) j .active) j else s
 
 def flushSp (fuel : Nat) (s : State) (k : Nat) : State :=
-  dropNormal fuel (markActive { s with tmp := s.sps k, sps := upd s.sps k {} } (s.sps k).handles)
+  dropNormal fuel (markActive (loadSp s k) (s.sps k).handles)
 
 def drainSp (fuel : Nat) (s : State) (k : Nat) : State :=
-  if (s.sps k).handles.isEmpty then s else flushSp fuel { s with moved := true } k
+  if (s.sps k).handles.isEmpty then s else flushSp fuel (setMoved s true) k
 
 def drainRound (fuel : Nat) (s : State) : State :=
   (List.range nSp).foldl (drainSp fuel)
     ((List.range maxId).foldl (drainCo fuel)
       ((List.range maxId).foldl (drainFut fuel)
-        ((List.range nMx).foldl (drainMx fuel) { s with moved := false })))
+        ((List.range nMx).foldl (drainMx fuel) (setMoved s false))))
 
 def drain : Nat → Nat → State → State
   | 0, _, s => s
@@ -501,28 +510,24 @@ def drain : Nat → Nat → State → State
 def killGen (s : State) (g : Nat) : State :=
   if (s.gens g).exist then freeFrame (setGen s g { (s.gens g) with exist := false }) (s.gens g).heap else s
 
-/-- destructor of the suspend point object `S_k` (empty by now, but its heap array may still be there) -/
-def killSp (s : State) (k : Nat) : State := { freeExt s (s.sps k).ext with sps := upd s.sps k {} }
-
-def rqExit (s : State) : State := if s.fresh then rqDestroy s else s
-
 def opFin (fuel : Nat) (s : State) : State :=
   rqExit (killSp (killSp ((List.range maxId).foldl killGen (drain fuel fuel s)) 1) 0)
+
+def bindOk (s : State) : Option Nat → Bool
+  | some i => (s.futs i).existed
+  | none => true
 
 /-- one operation of ordinary code -/
 def step (fuel : Nat) (s : State) : Op → State
   | .fut i => if (s.futs i).existed then s else setFut s i { existed := true, alive := true }
   | .res i k => if (s.futs i).existed then dropNormal fuel (resolve s i k) else s
   | .resX i => if (s.futs i).existed then dropNormal fuel (resolve s i .d) else s
-  | .cb i =>
-      if (s.futs i).alive && !(s.futs i).ready then setFut s i { s.futs i with chain := .cb :: (s.futs i).chain } else s
-  | .bs i =>
-      if (s.futs i).alive && !(s.futs i).ready then setFut s i { s.futs i with chain := .sync :: (s.futs i).chain } else s
+  | .cb i => if (s.futs i).alive && !(s.futs i).ready then subscribe s i .cb else s
+  | .bs i => if (s.futs i).alive && !(s.futs i).ready then subscribe s i .sync else s
   | .bw _ => s
   | .del i => if (s.futs i).alive && (s.futs i).ready then setFut s i { s.futs i with alive := false } else s
   | .co j heap bind script =>
-      if (s.cos j).st = .unborn && (match bind with | some i => (s.futs i).existed | none => true) then
-        opCo fuel s j heap bind script
+      if (s.cos j).st = .unborn && bindOk s bind then opCo fuel s j heap bind script
       else s
   | .tl m =>
       if (s.mxs m).owner = .free then setMx s m { s.mxs m with owner := .main } else s
@@ -531,50 +536,14 @@ def step (fuel : Nat) (s : State) : Op → State
   | .sp k =>
       match (s.sps k).handles.getLast? with
       | none => s
-      | some h =>
-          resumeNormal fuel (setSt { s with sps := upd s.sps k { s.sps k with handles := (s.sps k).handles.dropLast } } h .active) h
+      | some h => resumeNormal fuel (setSt (popSp s k) h .active) h
   | .sf k => flushSp fuel s k
   | .gen g heap n =>
       if (s.gens g).exist then s
-      else setGen (if heap then emit s (Tok.alloc .frame 1 0) else s) g { exist := true, heap := heap, next := 0, n := n, done := false }
+      else setGen (allocFrame s heap) g { exist := true, heap := heap, next := 0, n := n, done := false }
   | .gs g _ => if (s.gens g).exist then setGen s g (genStep (s.gens g)).1 else s
   | .gd g => killGen s g
   | .fin => opFin fuel s
-
-/-- the head word(s) of the output line of an operation, computed on the state *before* the operation -/
-def outcomeText : Outcome → String
-  | .none => "pending"
-  | .value n => s!"v:{n}"
-  | .exc => "exc"
-  | .canceled => "canceled"
-
-def boolText (b : Bool) : String := if b then "1" else "0"
-
-def headOf (_fuel : Nat) (s : State) : Op → String
-  | .fut i => if (s.futs i).existed then "skip" else "ok"
-  | .res i k =>
-      if (s.futs i).existed then s!"{boolText (!(s.futs i).claimed)} n={(resolve s i k).tmp.handles.length}" else "skip"
-  | .resX i => if (s.futs i).existed then s!"{boolText (!(s.futs i).claimed)} n=-" else "skip"
-  | .cb i => if (s.futs i).alive then (if (s.futs i).ready then "ready" else "sub") else "skip"
-  | .bs i => if (s.futs i).alive then (if (s.futs i).ready then "ready" else "sub") else "skip"
-  | .bw i => if (s.futs i).alive && (s.futs i).ready then outcomeText (s.futs i).outcome else "skip"
-  | .del i => if (s.futs i).alive && (s.futs i).ready then "ok" else "skip"
-  | .co j _ bind _ =>
-      if (s.cos j).st = .unborn && (match bind with | some i => (s.futs i).existed | none => true) then
-        (match bind with
-         | some i => if (s.futs i).claimed then "unclaimed" else "ok"
-         | none => "ok")
-      else "skip"
-  | .tl m => if (s.mxs m).owner = .main then "skip" else boolText ((s.mxs m).owner = .free)
-  | .ul m => if (s.mxs m).owner = .main then s!"n={(handOver s m none).tmp.handles.length}" else "skip"
-  | .sa k j => if (s.cos j).st = .parked then s!"n={(s.sps k).handles.length + 1}" else "skip"
-  | .sp k => if (s.sps k).handles.isEmpty then "none" else "ok"
-  | .sf k => s!"n={(s.sps k).handles.length}"
-  | .gen g _ _ => if (s.gens g).exist then "skip" else "ok"
-  | .gs g _ =>
-      if (s.gens g).exist then (match (genStep (s.gens g)).2 with | some v => s!"v:{v}" | none => "done") else "skip"
-  | .gd g => if (s.gens g).exist then "ok" else "skip"
-  | .fin => "left"
 
 /-- number of coroutines that were started and did not finish -/
 def leftOf (s : State) : Nat :=
@@ -583,12 +552,12 @@ def leftOf (s : State) : Nat :=
 /-- run a whole program -/
 def run (fuel : Nat) (fresh : Bool) (prog : List Op) : State := prog.foldl (step fuel) (init fresh)
 
-/-- the allocation log, oldest first -/
 def isEv : Tok → Bool
   | .alloc .. => true
   | .free .. => true
   | _ => false
 
+/-- the allocation log, oldest first -/
 def allocLog (s : State) : List Tok := (s.out.filter isEv).reverse
 
 end Cocls.Alloc
